@@ -12,7 +12,7 @@ PID = "C13"
 def vol_ranges(line):
     return [(int(a), int(b)) for a, b, c, d in re.findall(r"\[(\-?\d+) (\-?\d+) (\-?\d+) ([0-9a-f~\-]+)\]", line)]
 
-def judge(ops, cb, paths):
+def judge(ops, cb, paths, expect_after_poke=None):
     bad = []
     ranges = None; cur = None
     imgs = {}
@@ -31,6 +31,12 @@ def judge(ops, cb, paths):
                     if got != want:
                         bad.append(f"'{a[0]}': volume {k} has block range [{got[0]},{got[1]}], its cylinders are blocks [{want[0]},{want[1]}]")
                 ranges = expect
+            if expect_after_poke and r and a[0] == "opendev" and any(x.startswith("pokeimg") for x in ops[:i]):
+                # a partition table whose geometry was rewritten by the check: the ranges follow from ITS numbers
+                for k, (got, want) in enumerate(zip(r, expect_after_poke)):
+                    if got != want:
+                        bad.append(f"'{a[0]}': volume {k} has block range [{got[0]},{got[1]}], the partition table says [{want[0]},{want[1]}]")
+                ranges = expect_after_poke
             if a[0] == "opendev": continue       # RDB header reads happen here, by design outside every volume
         if a[0] == "mount": cur = int(a[2])
         if a[0] == "unmount": 
@@ -132,6 +138,37 @@ def hostile_selfptr(exe, rng, i):
     ops += ["unmount 0 0", "closedev 0"]
     return ops
 
+def foreign_geometry(exe, rng, i):
+    """a partition table as another tool may have written it: the RDSK block's `cylBlocks` is smaller than heads*sectors
+    (spare sectors per cylinder); the partitions' block ranges follow from cylBlocks.  The first partition is then filled
+    to its end: nothing beyond it may be touched"""
+    import struct
+    cyl, heads, secs = 120, 2, 16
+    hx = gen.hx
+    lo1, n1, lo2, n2 = 2, 40, 42, 60
+    pre = [f"newdev 0 {cyl} {heads} {secs}", "clock 2017 2 2 2 2 2", f"mkhd 0 2 {lo1} {n1} {hx(b'one')} {rng.choice([0, 1, 3])} {lo2} {n2} {hx(b'two')} 1",
+           "closedev 0"]
+    p = os.path.join(vlib.scratch(), f"c13fg_{i}.img")
+    vlib.run_c(exe, pre[:3] + [f"dumpimg 0 {p}", "closedev 0"], timeout=120)
+    with open(p, "rb") as fh: blk = bytearray(fh.read(512))
+    os.unlink(p)
+    if blk[:4] != b"RDSK": return None
+    cb_ = heads * secs - rng.choice([1, 2, 3])
+    struct.pack_into(">I", blk, 0x90, cb_)
+    nl = struct.unpack(">I", blk[4:8])[0]
+    struct.pack_into(">I", blk, 8, 0)
+    s_ = sum(struct.unpack(">%dI" % nl, blk[:4 * nl])) & 0xffffffff
+    struct.pack_into(">I", blk, 8, (-s_) & 0xffffffff)
+    muts = [f"pokeimg 0 {0x90} {blk[0x90:0x94].hex()}", f"pokeimg 0 8 {blk[8:12].hex()}"]
+    expect = [(lo1 * cb_, (lo1 + n1) * cb_ - 1), (lo2 * cb_, (lo2 + n2) * cb_ - 1)]
+    # the volumes have to be formatted again for the new ranges? no: the file systems inside were made for the old ranges and
+    # are simply not where the table now says; mounting may fail.  So the check formats partition 0 anew through the
+    # library's own mount path only if it mounts; what matters is where accesses land
+    nblk = n1 * cb_
+    ops = pre + muts + ["opendev 0 0", "mount 0 0 0", "free 0 0", f"open 1 0 0 {hx(b'big')} 2", f"write 1 {nblk * 512} 7", "close 1",
+                        f"mkdir 0 0 {hx(b'd')}", "list 0 0 1", "unmount 0 0", "mount 0 1 0", "list 0 1 1", "unmount 0 1", "closedev 0"]
+    return ops, expect
+
 def run(res):
     res.cov["rule"] = ("seeded `rdb` disks: 1-4 partitions (heads 1/2/4, sectors 8..32, random cylinder ranges with gaps), a namespace or file history on one partition, a light touch of another, "
                        "read-only remount of all; plus hostile pointers (negative, huge, other partition) poked into a partition's root block; distinct by (layout, partition, first ops)")
@@ -143,6 +180,11 @@ def run(res):
     for i in range(6 if res.tier == "quick" else 60):
         o = hostile_selfptr(exe, vlib.rng_for(res.seed, f"C13s/{i}"), i)
         if o: sp.append((with_dumps(o), False))
+    expects = {}
+    for i in range(4 if res.tier == "quick" else 40):
+        o = foreign_geometry(exe, vlib.rng_for(res.seed, f"C13fg/{i}"), i)
+        if o:
+            w = with_dumps(o[0]); expects[id(w)] = o[1]; sp.append((w, False))
     from concurrent.futures import ThreadPoolExecutor
     def one(t): return (t[0],) + hist.run_plain(exe, t[0], lean=t[1])
     bad, ties = [], []
@@ -150,7 +192,7 @@ def run(res):
         for ops, cb, paths, tie, san, crash, fault in ex.map(one, sp):
             res.note_case((ops[0], ops[2][:60], tuple(o.split()[0] for o in ops[6:12])), None)
             if tie or fault: ties.append((ops, tie, fault))
-            for m in judge(ops, cb, paths): bad.append((ops, m))
+            for m in judge(ops, cb, paths, expects.get(id(ops))): bad.append((ops, m))
     res.cov["samples"] = [sp[0][0][:6], sp[-1][0][-14:-8]]
     res.cov["traces_validated_against_impl"] = n - len(ties)
     if bad:
